@@ -88,7 +88,15 @@ type WorkerOut struct {
 var execActive atomic.Bool
 
 // SpinLimit is how long (real time) an execution may go without a single scheduling step.
-const SpinLimit = 12 * time.Second
+// (Under the race detector the harness's own bookkeeping - regular expressions over megabyte values - is an order
+// of magnitude slower, and on a loaded machine a single step has been seen to take longer than 12 s.)
+var SpinLimit = 12 * time.Second
+
+func init() {
+	if raceBuild {
+		SpinLimit = 90 * time.Second
+	}
+}
 
 // spinWatch runs outside every bubble, on the real clock. A goroutine of the library that loops without
 // ever reaching a seam freezes the simulation (nothing parks, virtual time cannot advance); no in-bubble
